@@ -43,6 +43,9 @@ PRELUDE = r"""
 #ifndef NULL
 #define NULL ((void*)0)
 #endif
+/* stand-ins for C++ library types that occur as fields (their operations are rewritten per suite or stubbed) */
+typedef struct rxv_vector { void* data; size_t size; } rxv_vector;
+typedef struct rxv_string { const char* data; size_t size; } rxv_string;
 #define RXV_SWAP(a, b) do { __typeof__(a) rxv_tmp_ = (a); (a) = (b); (b) = rxv_tmp_; } while (0)
 #define RXV_MAX(a, b) ((a) > (b) ? (a) : (b))
 #define RXV_MIN(a, b) ((a) < (b) ? (a) : (b))
@@ -288,6 +291,9 @@ class Translator:
         self.template_funcs = set()
         self.template_classes = set()
         self.alias = dict(spec.get("class_alias", {}))   # class -> concrete struct name
+        if spec.get("flatten"):
+            for cn in spec["flatten"]["chain"]:
+                self.alias[cn] = spec["flatten"]["root"]
         self.keep = spec.get("keep", [])
         self.drop_log = []
         self.ref_sigs = {}         # cname -> list of bool (param is ref)
@@ -298,6 +304,9 @@ class Translator:
         self.virtual = dict(spec.get("virtual", {}))
         self.renames = dict(spec.get("rename_calls", {}))
         self.dropped_types = set()
+        self.array_alias = {}
+        self.memfn_types = set()
+        self.type_alias = {}
 
     def fire(self, rule, n=1):
         if n:
@@ -345,7 +354,10 @@ class Translator:
         kept = []
         for f in self.funcs:
             q = (f.cls + "::" if f.cls else "") + f.name
-            if f.body is not None and self.wanted(q):
+            is_constexpr = f.item is not None and re.match(r"\s*(static\s+|inline\s+)*constexpr\b", f.item.text) is not None
+            if f.body is not None and (self.wanted(q) or (is_constexpr and not f.cls)):
+                if is_constexpr and not self.wanted(q):
+                    self.fire("constexpr function kept (used by constant definitions)")
                 kept.append(f)
         # prefer out-of-class definitions when duplicated
         seen = {}
@@ -360,7 +372,7 @@ class Translator:
             if f.cname not in self.ref_sigs:
                 self.ref_sigs[f.cname] = [p["ref"] and not p["arrayref"] for p in f.params]
         # pass 2: emit
-        out = [PRELUDE]
+        out = [PRELUDE + "".join("#include <%s>\n" % h for h in self.spec.get("sys_includes", []))]
         body_part = []
         last_file = None
         for kind, it, data in units:
@@ -403,6 +415,9 @@ class Translator:
     # ----------------------------------------------------------------------------------
     def classify(self, it):
         t = it.text.strip()
+        if re.match(r'extern\s*"C"\s*(?!\{)', t):
+            t = re.sub(r'^extern\s*"C"\s*', "extern ", t)
+            self.fire('extern "C" linkage specifier removed')
         m = mask_strings(t)
         if re.match(r"static_assert\s*\(", m):
             self.fire("static_assert dropped")
@@ -421,10 +436,23 @@ class Translator:
         mo = re.match(r"using\s+(\w+)\s*=\s*(.*);$", t, re.S)
         if mo:
             name, target = mo.group(1), mo.group(2).strip()
-            if "std::" in target or "<" in target:
+            am = re.match(r"std::array\s*<\s*(\w+)\s*,\s*([^>]+)>\s*$", target)
+            if am:
+                self.array_alias[name] = (am.group(1), am.group(2).strip())
+                self.fire("using std::array alias -> C array at use")
+                return "drop", "using %s (array alias, expanded at use)" % name
+            mp = re.match(r"(.*?)\(\s*(\w+)\s*::\s*\*\s*\)\s*\((.*)\)\s*(const)?$", target, re.S)
+            if mp and "std::" not in target:
+                params = ", ".join(p["ctext"] for p in self.parse_params(mp.group(3)))
+                self.fire("member-function-pointer alias -> function pointer with explicit self")
+                self.memfn_types.add(name)
+                return "text", "struct %s;\ntypedef %s (*%s)(struct %s* self%s);" % (mp.group(2), mp.group(1).strip(), name, mp.group(2), (", " + params) if params else "")
+            if "std::" in target or "<" in target or "::*" in target:
                 self.fire("using alias dropped (std/template)")
+                self.dropped_types.add(name)
                 return "drop", "using %s" % name
             self.fire("using->typedef")
+            self.type_alias[name] = target.split()[-1] if target.split() else target
             if target in self.classes or target in self.alias:
                 target = "struct " + self.alias.get(target, target)
             return "text", "typedef %s %s;" % (target, name)
@@ -461,7 +489,11 @@ class Translator:
             return self.parse_class(it, t, m, mo)
         if re.match(r"(union|struct|enum)\b", m) and "{" in m and not re.search(r"\)\s*(const\s*)?\{", m.split("{")[0] + "{"):
             return "text", self.decl_fix(t)
-        # function definition or declaration
+        # function definition or declaration; Class<Args>::member -> Class::member first
+        t_n = re.sub(r"\b(\w+)\s*<[^<>;{}()]*(?:<[^<>]*>[^<>;{}()]*)?>\s*::", r"\1::", t)
+        if t_n != t:
+            self.fire("template argument list dropped in qualified name")
+            t, m = t_n, mask_strings(t_n)
         f = self.parse_func(it, t, m, None)
         if f is not None:
             if f.body is None:
@@ -474,10 +506,31 @@ class Translator:
             self.funcs.append(f)
             return "func", f
         # variable definition
+        for pat in self.spec.get("drop_vars", []):
+            if re.search(pat, m):
+                self.fire("variable dropped by recipe")
+                return "drop", "var " + t[:60]
+        if any(re.search(r"\b%s\b" % re.escape(d), m.split("=")[0]) for d in self.dropped_types):
+            self.fire("variable of dropped type omitted")
+            return "drop", "var " + t[:60]
         return "text", self.var_fix(t)
 
     # ----------------------------------------------------------------------------------
+    def std_types(self, t):
+        t2 = re.sub(r"\bstd::vector\s*<[^<>]*>", "rxv_vector", t)
+        t2 = re.sub(r"\bstd::string\b", "rxv_string", t2)
+        if t2 != t:
+            self.fire("std::vector/std::string -> stand-in struct")
+        for name, (ty, n) in self.array_alias.items():
+            t3 = re.sub(r"\b%s\s*&\s*(\w+)" % name, r"%s* \1" % ty, t2)
+            t3 = re.sub(r"\b%s\s+(\w+)\s*;" % name, r"%s \1[%s];" % (ty, n), t3)
+            if t3 != t2:
+                self.fire("std::array alias expanded")
+            t2 = t3
+        return t2
+
     def decl_fix(self, t):
+        t = self.std_types(t)
         t = re.sub(r"\balignas\s*\((\w+)\)", r"__attribute__((aligned(\1)))", t)
         t = t.replace("nullptr", "NULL")
         t = re.sub(r"\brandomx::", "", t)
@@ -498,6 +551,8 @@ class Translator:
         e = re.sub(r"\b(?:static|reinterpret|const)_cast\s*<([^<>]*(?:<[^<>]*>)?[^<>]*)>\s*\(", r"(\1)(", e)
         for ec in self.enum_classes:
             e = re.sub(r"\b%s::(\w+)" % ec, r"%s_\1" % ec, e)
+        e = re.sub(r"&\s*(\w+)::(\w+)\b(?!\s*\()", lambda mo: ("%s_%s" % (mo.group(1), mo.group(2))) if mo.group(1) in self.classes else mo.group(0), e)
+        e = re.sub(r"\(\s*this\s*->\*\s*(\w+)\s*\)\s*\(", r"\1(self, ", e)
         e = e.replace("nullptr", "NULL")
         return e
 
@@ -530,6 +585,7 @@ class Translator:
         return params
 
     def type_fix(self, t):
+        t = self.std_types(t)
         t = re.sub(r"\brandomx::", "", t)
         t = re.sub(r"\b(\w+)\s*<[^<>]*>", lambda mo: mo.group(1) if mo.group(1) in self.template_classes or True else mo.group(0), t)
         return t
@@ -662,9 +718,11 @@ class Translator:
         if mo.group(1) is not None:
             self.template_classes.add(name)
         if mo.group(4):
-            for b in split_top(mo.group(4)):
+            bases_txt = mo.group(4)
+            while re.search(r"<[^<>]*>", bases_txt):
+                bases_txt = re.sub(r"<[^<>]*>", "", bases_txt)
+            for b in split_top(bases_txt):
                 b = re.sub(r"\b(public|protected|private|virtual)\b", "", b).strip()
-                b = re.sub(r"<.*>", "", b).strip()
                 b = b.split("::")[-1]
                 if b:
                     c.bases.append(b)
@@ -690,7 +748,14 @@ class Translator:
                 continue
             if re.match(r"(union|struct)\s*\{", mm):
                 um = re.match(r"union\s*\{(.*)\}\s*;$", mt, re.S)
-                if um and all("*" in x for x in um.group(1).split(";") if x.strip()):
+                if um:
+                    # default member initialisers inside the union are dropped (constructors are not modelled)
+                    inner2 = re.sub(r"\s*=\s*[^;{}]*;", ";", um.group(1))
+                    if inner2 != um.group(1):
+                        self.fire("default member initialiser dropped")
+                        mt = "union {" + inner2 + "};"
+                        um = re.match(r"union\s*\{(.*)\}\s*;$", mt, re.S)
+                if um and name in self.spec.get("dealias_unions", []) and all("*" in x for x in um.group(1).split(";") if x.strip()):
                     # CBMC 6.11 mis-resolves reads of a non-first pointer member of a union through a pointer to the
                     # enclosing struct (spurious failures, measured).  The members are emitted as separate fields:
                     # an over-approximation as long as no kept function reads a member after writing another one.
@@ -703,8 +768,9 @@ class Translator:
                     continue
                 c.fields.append((self.decl_fix(mt), []))
                 # names inside an anonymous union are directly accessible
-                inner = mm[mm.index("{") + 1:mm.rindex("}")]
-                after = mm[mm.rindex("}") + 1:].strip(" ;")
+                mm2 = mask_strings(mt)
+                inner = mm2[mm2.index("{") + 1:mm2.rindex("}")]
+                after = mm2[mm2.rindex("}") + 1:].strip(" ;")
                 if after:
                     c.field_names.append(after)
                 else:
@@ -827,11 +893,20 @@ class Translator:
     def emit_class(self, c):
         sn = self.struct_name(c.name)
         out = list(c.pre)
+        fl = self.spec.get("flatten")
+        if fl and c.name in fl["chain"]:
+            # the whole inheritance chain is one struct, named after the root, with the fields of the concrete class
+            if c.name != fl["concrete"]:
+                out.append("struct %s; typedef struct %s %s;" % (sn, sn, c.name))
+                self.fire("class of flattened chain -> typedef of the root struct")
+                return "\n".join(out)
+            texts, names = self.all_fields(c.name)
+            out.append("struct %s {\n\t%s\n};\ntypedef struct %s %s;" % (sn, "\n\t".join(texts), sn, c.name))
+            self.fire("concrete class of flattened chain -> struct with base fields first")
+            return "\n".join(out)
         if sn != c.name:
-            # aliased onto a concrete (flattened) struct emitted elsewhere
             out.append("struct %s; typedef struct %s %s;" % (sn, sn, c.name))
             self.fire("class aliased onto concrete struct")
-            # if this is the concrete class itself it is emitted when reached
             return "\n".join(out)
         texts, names = self.all_fields(c.name)
         if not texts:
@@ -899,6 +974,11 @@ class Translator:
     # ----------------------------------------------------------------------------------
     def body_fix(self, f):
         b = f.body
+        for rw in self.spec.get("pre_rewrites", []):
+            if rw.get("function") and not fnmatch.fnmatchcase(f.cname, rw["function"]):
+                continue
+            b, k = re.subn(rw["pattern"], rw["repl"], b)
+            self.fire("recipe rewrite: " + rw["name"], k)
         b = self.expr_fix(b)
         n0 = len(re.findall(r"\b(?:static|reinterpret|const)_cast\b", f.body))
         self.fire("cast", n0)
@@ -1066,6 +1146,7 @@ class Translator:
                 pos = mo.end()
                 continue
             meth = self.all_methods(owner)[name]
+            owner_guess = owner
             # object expression: scan backwards
             j = mo.start() - 1
             while j >= 0 and b[j].isspace():
@@ -1097,6 +1178,18 @@ class Translator:
             if not obj.strip():
                 pos = mo.end()
                 continue
+            # prefer the class of the object's declared type (field or parameter) when the method name is ambiguous
+            vn = re.search(r"(\w+)\W*$", obj)
+            if vn and not self.virtual.get(name):
+                decls = [p["ctext"] for p in f.params] + (self.all_fields(f.cls)[0] if f.cls else [])
+                for d in decls:
+                    dm = re.match(r"\s*(?:const\s+)?(?:struct\s+)?(\w+)\s*\*?\s*%s\s*(?:\[[^\]]*\])?\s*;?\s*$" % re.escape(vn.group(1)), d)
+                    if dm:
+                        ty = dm.group(1)
+                        ty = self.type_alias.get(ty, ty)
+                        if ty in self.classes and name in self.all_methods(ty):
+                            meth = self.all_methods(ty)[name]
+                        break
             cn = "%s_%s" % (meth.cls if not self.virtual.get(name) else owner, name)
             cn = self.renames.get(cn, cn)
             if name == "op_call":
@@ -1207,6 +1300,7 @@ def translate(spec, repo, scratch):
         undefs += PORTABLE_UNDEFS
     defines = ['UNREACHABLE=__CPROVER_assert(0,"UNREACHABLE reached")'] + list(spec.get("defines", []))
     pp = preprocess(path, repo, defines, undefs, spec.get("incdirs", []))
+    pp = re.sub(r"^[ \t]*#[ \t]*pragma[^\n]*$", "", pp, flags=re.M)   # pragmas (pack/GCC options) carry no semantics here
     clean, marks = strip_linemarkers(pp)
     items = split_items(clean, marks)
     tr = Translator(spec, repo)
